@@ -76,7 +76,7 @@ def write(root, samples, categories, vis_levels=("full", "most", "partial", "non
             aidx += 1
             rec = dict(token=t, sample_token=tok("s", i), instance_token=a["inst"], visibility_token=a.get("vis", vis_levels[0]),
                        attribute_tokens=[attr_tok[x] for x in a.get("attrs", [])], translation=list(a["pos"]), size=list(a["size"]),
-                       rotation=quat_z(a["yaw"]), prev="", next="", num_lidar_pts=a["npts"], num_radar_pts=0)
+                       rotation=quat_z(a["yaw"]), prev="", next="", num_lidar_pts=a["npts"], num_radar_pts=a.get("radar", 0))
             T["sample_annotation"].append(rec)
             inst_anns.setdefault(a["inst"], dict(cat=a["cat"], anns=[]))["anns"].append(rec)
     for inst, d in inst_anns.items():
